@@ -176,8 +176,20 @@ func checkPlmnDecoders(w *World, r *Report) {
 		s, ok := v.(StrV)
 		return s, ok && s.Sym
 	}
+	type pin struct {
+		digit int // index into m1 m2 m3 n1 n2 n3, -1: none
+		val   uint64
+	}
+	pins := []pin{{-1, 0}}
+	for dgt := 0; dgt < 6; dgt++ {
+		pins = append(pins, pin{dgt, 0}, pin{dgt, 9})
+	}
 	for _, mncLen := range []int{2, 3} {
-		for _, dname := range []string{"PlmnIDToString"} {
+		for _, pn := range pins {
+			if pn.digit == 5 && mncLen == 2 {
+				continue
+			}
+			dname := "PlmnIDToString"
 			f := w.LookupFunc("nasConvert", dname)
 			if f == nil {
 				r.Fail("anchor", "nasConvert."+dname, "missing", token.NoPos, "decoder not found", nil)
@@ -203,9 +215,23 @@ func checkPlmnDecoders(w *World, r *Report) {
 				}
 				it.AndPremise(it.T.Not(all))
 			}
+			what := fmt.Sprintf("%d-digit MNC", mncLen)
+			if pn.digit >= 0 {
+				// boundary case: one digit pinned to 0 or 9 (decides comparisons that depend on it)
+				bits := [][]*Node{d.m1, d.m2, d.m3, d.n1, d.n2, d.n3}[pn.digit]
+				eq := it.T.one
+				for k, b := range bits {
+					if pn.val>>uint(k)&1 == 1 {
+						eq = it.T.And(eq, b)
+					} else {
+						eq = it.T.And(eq, it.T.Not(b))
+					}
+				}
+				it.AndPremise(eq)
+				what += fmt.Sprintf(", %s = %d", []string{"MCC digit 1", "MCC digit 2", "MCC digit 3", "MNC digit 1", "MNC digit 2", "MNC digit 3"}[pn.digit], pn.val)
+			}
 			res := it.Call(w.SSAFunc(f), []Value{SliceV{Obj: o, Len: 3}}, st, 0)
 			s, ok := asStr(res)
-			what := fmt.Sprintf("%d-digit MNC", mncLen)
 			if !ok || len(it.Unsup) > 0 {
 				r.Fail("lay.plmn.text", fname, what+" undecided", f.Pos(), fmt.Sprintf("decoder outside the modelled fragment: %v %v", res, it.Unsup), nil)
 				continue
